@@ -223,6 +223,72 @@ func c19Semantics(c *Ctx) {
 				c.Violate(fmt.Sprintf("%s: SetOption(%s, 4) while the receiver was blocked on a full queue disconnected the peer (%v)", sk.name, opt, evs),
 					map[string]interface{}{"proto": sk.name, "option": opt, "history": "ReadQLen=2; AddPipe; 6 messages arrive; SetOption"})
 			}
+			// … and it leaves the peer's receive path in working order: a message arriving after the change is received
+			if r == "ok" && !p.IsClosed() && opt == mangos.OptionReadQLen {
+				_ = proto.SetOption(mangos.OptionRecvDeadline, 400*time.Millisecond)
+				// drain what survived the change, then one fresh message must come through
+				for i := 0; i < 8; i++ {
+					k := vp.GoRecv(proto)
+					if !k.Wait(150*time.Millisecond) || k.Err != nil {
+						k.Wait(600 * time.Millisecond)
+						break
+					}
+					k.Msg.Free()
+				}
+				p.Inject(body(99))
+				k := vp.GoRecv(proto)
+				ok := k.Wait(800*time.Millisecond) && k.Err == nil
+				c.Class(fmt.Sprintf("resize-then-receive %s", sk.name), true)
+				c.T.Line("resize", fmt.Sprintf("opt.after %s resize-then-receive", sk.name), map[bool]string{true: "received", false: "lost"}[ok])
+				if !ok {
+					c.Violate(fmt.Sprintf("%s: after SetOption(%s, 4) made while the peer's receiver was blocked on a full queue, a message arriving from that (still connected) peer is never received: %s", sk.name, opt, errName(k.Err)),
+						map[string]interface{}{"proto": sk.name, "option": opt, "history": "ReadQLen=2; AddPipe; 6 messages arrive; SetOption(ReadQLen,4); drain; 1 message arrives; Recv"})
+				} else {
+					k.Msg.Free()
+				}
+			}
+			_ = proto.Close()
+			_ = p.Close()
+		}
+		// a Recv that is already waiting when the queue length changes must see what arrives afterwards
+		{
+			proto := sk.mkP()
+			if proto.SetOption(mangos.OptionReadQLen, 2) != nil {
+				continue
+			}
+			if sk.name == "sub" {
+				_ = proto.SetOption(mangos.OptionSubscribe, []byte{})
+			}
+			_ = proto.SetOption(mangos.OptionRecvDeadline, 600*time.Millisecond)
+			net := &vp.Net{}
+			p := vp.NewVPipe(0x78, proto, net)
+			if p.Attach() != nil {
+				continue
+			}
+			vp.Quiesce()
+			k := vp.GoRecv(proto)
+			vp.Quiesce()
+			r := setSafely(proto, mangos.OptionReadQLen, 4)
+			vp.Quiesce()
+			var fresh []byte
+			switch sk.name {
+			case "xrep", "xrespondent", "respondent", "xreq", "xsurveyor":
+				fresh = []byte{0x80, 0, 0, 7, 'n'}
+			case "xpair1", "pair1", "xstar", "star":
+				fresh = []byte{0, 0, 0, 0, 'n', 7}
+			default:
+				fresh = []byte{'n', 7}
+			}
+			p.Inject(fresh)
+			ok := k.Wait(900*time.Millisecond) && k.Err == nil
+			c.Class(fmt.Sprintf("resize-under-recv %s", sk.name), true)
+			c.T.Line("resize", fmt.Sprintf("opt.after %s resize-under-recv", sk.name), map[bool]string{true: "received", false: "lost"}[ok])
+			if r == "ok" && !ok {
+				c.Violate(fmt.Sprintf("%s: a Recv that was waiting when READQ-LEN was changed did not receive the message that arrived afterwards (%s)", sk.name, errName(k.Err)),
+					map[string]interface{}{"proto": sk.name, "history": "ReadQLen=2; AddPipe; Recv (blocks); SetOption(ReadQLen,4); 1 message arrives"})
+			} else if ok {
+				k.Msg.Free()
+			}
 			_ = proto.Close()
 			_ = p.Close()
 		}
